@@ -435,7 +435,7 @@ pub fn library_reparse2(b: &[u8], acc: &[(u8, Item)], route: u32) -> Result<(), 
     if compose_vec(|t| hs.compose(t)) != b[..12] {
         return Err("library2: header section composes to other octets".into());
     }
-    let mut copy = b.to_vec();
+    let mut copy = b[..12].to_vec();
     {
         let hm = HeaderSection::for_message_slice_mut(&mut copy);
         let seen = hm.as_slice().to_vec();
@@ -1217,14 +1217,14 @@ impl<T: Tgt> Drive for Driver<T> {
         let c = match self.route % 4 {
             0 | 2 => each!(&self.b, b => b.counts()),
             1 => each!(&self.b, b => b.as_message().header_counts()),
-            _ => {
+            _ => each!(&self.b, b => {
                 // the header section of the octets read as a whole
-                let o = each!(&self.b, b => b.as_slice().to_vec());
-                let hs = HeaderSection::for_message_slice(&o);
+                let o = b.as_slice();
+                let hs = HeaderSection::for_message_slice(o);
                 let c: &HeaderCounts = hs.as_ref();
                 assert!(c.as_slice() == hs.counts().as_slice() && c.as_slice() == &o[4..12]);
                 *c
-            }
+            }),
         };
         if self.route % 4 == 2 {
             // the names the counts have in UPDATE messages
@@ -1240,13 +1240,12 @@ impl<T: Tgt> Drive for Driver<T> {
     fn header(&self) -> [u8; 4] {
         let route = self.route;
         match route % 5 {
-            3 => {
-                let o = each!(&self.b, b => b.as_slice().to_vec());
-                let hs = HeaderSection::for_message_slice(&o);
+            3 => each!(&self.b, b => {
+                let hs = HeaderSection::for_message_slice(b.as_slice());
                 let hd: &Header = hs.as_ref();
                 assert!(hd.as_slice() == hs.header().as_slice());
                 read_header(*hd, route / 5)
-            }
+            }),
             4 => each!(&self.b, b => read_header(b.as_message().header(), route / 5)),
             _ => each!(&self.b, b => read_header(b.header(), route / 5)),
         }
